@@ -9,6 +9,7 @@ Anchors (typing.py as it is now, including the two `fix:` commits ade8dcb and 0d
   __add__ __radd__ __sub__ __rsub__ __mul__ __rmul__   734-842   `binop` with `addSpec subSpec rsubSpec mulSpec`
   __getitem__                       844-859, 1494-1519     `getSlice`, `getIdx` (through `sliceIdx` = CPython slice.indices + range)
   copy                              1108-1123    `copy`
+  __call__ (domain transform)       861-906      `transform` (per-row map = `Xform.row`; on `Cx R` it is `Fourier.callRow` of Model/Fourier.lean)
   len                               965-975      `Rows.len`
 
 The operator tables (signal / noise expressions of the four noise branches, the rejection test and its exception)
@@ -23,6 +24,7 @@ dtype tags: the lattice int < float < complex (`np.result_type` on {int64, float
 import OptiVerif.Gen.Container
 import OptiVerif.Model.Wire
 import OptiVerif.Model.Num
+import OptiVerif.Model.Fourier
 
 namespace OptiVerif.Container
 open OptiVerif
@@ -43,7 +45,20 @@ def DType.max (a b : DType) : DType := if a.rank ≤ b.rank then b else a
 class DropIm (α : Type) where
   dropIm : α → α
 
-instance : DropIm (Cx Int) := ⟨fun z => ⟨z.re, 0⟩⟩
+instance {R : Type} [NatCast R] : DropIm (Cx R) := ⟨fun z => ⟨z.re, ((0 : Nat) : R)⟩⟩
+
+/-- the per-row time/frequency transform of `x(domain, shift)` on the carrier (fft / ifft over the last axis,
+    optionally fftshift / ifftshift).  For complex carriers `Cx R` it IS `Fourier.callRow` of `Model/Fourier.lean`
+    (the model C02's theorems are about); nothing else is assumed of it in this file. -/
+class Xform (α : Type) where
+  row : Fourier.Dom → Bool → List α → List α
+
+instance {R : Type} [Add R] [Sub R] [Mul R] [Div R] [Neg R] [NatCast R] [Transc R] : Xform (Cx R) :=
+  ⟨Fourier.callRow⟩
+
+/-- Gaussian integers are not closed under the DFT: the exact handler `container.eval` refuses programs that
+    contain a transform node (they are run at `Cx Float` by `container.evalf`), so this instance is never executed -/
+instance : Xform (Cx Int) := ⟨fun _ _ xs => xs⟩
 
 /-- value conversion of `ndarray.astype(tgt)` / `np.array(ndarray, dtype=tgt)` from dtype `src` -/
 def castV {α} [DropIm α] (src tgt : DType) (x : α) : α :=
@@ -441,6 +456,34 @@ def getIdx {α} [DropIm α] (a : Sig α) (i : Int) : Except Err (Sig α) :=
 def copy {α} [DropIm α] (a : Sig α) (n : Option Int) : Except Err (Sig α) :=
   getSlice a none (some (n.getD a.len)) none
 
+/-! ### domain transform -/
+
+/-- `x(domain, shift)` (typing.py 861-906): `domain` 'w' / 'f' → fft, 't' → ifft (`none` = any other string:
+    ValueError); every row of signal and noise is transformed; the result is rebuilt by `self.__class__(signal)` /
+    `self.__class__(signal, noise)` from complex128 arrays, without `dtype` (so an optical result gets its `n_pol`
+    back from the array shape: (N,) → 1, (2,N) → 2) -/
+def transform {α} [DropIm α] [Xform α] (a : Sig α) (d : Option Fourier.Dom) (shift : Bool) : Except Err (Sig α) :=
+  match d with
+  | none => .error .ValueError
+  | some d =>
+    construct a.cls (arr .complex (a.sig.mapL (Xform.row d shift)))
+      (a.noise.map (fun n => arr .complex (n.mapL (Xform.row d shift)))) none
+
+/-- rows as the list of rows `Fourier.Payload` uses -/
+def Rows.toLists {α} : Rows α → List (List α)
+  | .one xs => [xs]
+  | .two xs ys => [xs, ys]
+
+/-- bridge to `Model/Fourier.lean`: the numeric payload of a complex-valued object -/
+def Sig.payload {R} (s : Sig (Cx R)) : Fourier.Payload R := ⟨s.sig.toLists, s.noise.map Rows.toLists⟩
+
+/-- structural change of carrier (e.g. the embedding of the Gaussian integers into `Cx ℝ`) -/
+def Rows.mapV {α β} (f : α → β) : Rows α → Rows β
+  | .one xs => .one (xs.map f)
+  | .two xs ys => .two (xs.map f) (ys.map f)
+
+def Sig.mapV {α β} (f : α → β) (s : Sig α) : Sig β := ⟨s.cls, s.npol, s.dt, s.sig.mapV f, s.noise.map (Rows.mapV f)⟩
+
 /-! ### programs -/
 
 inductive Expr (α : Type)
@@ -459,11 +502,12 @@ inductive Expr (α : Type)
   | idx (a : Expr α) (i : Int)
   | slice (a : Expr α) (start stop step : Option Int)
   | copy (a : Expr α) (n : Option Int)
+  | transform (a : Expr α) (d : Option Fourier.Dom) (shift : Bool)   -- a(domain, shift)
 
 abbrev Env (α : Type) := List (Sig α)
 
 section
-variable {α : Type} [Add α] [Sub α] [Neg α] [Mul α] [DropIm α]
+variable {α : Type} [Add α] [Sub α] [Neg α] [Mul α] [DropIm α] [Xform α]
 
 /-- sequencing of two evaluations and an operation (left operand first, as Python does) -/
 def bind2 (x y : Except Err (Sig α)) (f : Sig α → Sig α → Except Err (Sig α)) : Except Err (Sig α) :=
@@ -495,6 +539,7 @@ def eval (ρ : Env α) : Expr α → Except Err (Sig α)
   | .idx a i => bind1 (eval ρ a) (fun x => getIdx x i)
   | .slice a s e st => bind1 (eval ρ a) (fun x => getSlice x s e st)
   | .copy a n => bind1 (eval ρ a) (fun x => copy x n)
+  | .transform a d sh => bind1 (eval ρ a) (fun x => transform x d sh)
 
 /-- the leaves of a program are evaluated first, in order; the first failure is the program's result -/
 def evalLeaves (ρ : Env α) : List (Expr α) → Except Err (Env α)
@@ -517,8 +562,11 @@ namespace IO
 open Wire
 
 abbrev GI := Cx Int
+abbrev CF := Cx Float
 
 def pGI : P GI := do let a ← Wire.int; let b ← Wire.int; pure ⟨a, b⟩
+/-- the same integer tokens read as floats (exact: |values| < 2^53) -/
+def pCF : P CF := do let a ← Wire.int; let b ← Wire.int; pure ⟨Float.ofInt a, Float.ofInt b⟩
 
 def pDType : P DType := do
   let t ← tok
@@ -533,18 +581,21 @@ def pOpt {β} (p : P β) : P (Option β) := do
   | "some" => do let x ← p; pure (some x)
   | _ => throw s!"opt:{t}"
 
-def pData : P (Data GI) := do
+section
+variable {α : Type} (pv : P α)
+
+def pData : P (Data α) := do
   let t ← tok
   match t with
-  | "s" => do let x ← pGI; pure (.s x)
-  | "v" => do let xs ← list pGI; pure (.v xs)
-  | "m" => do let rows ← list (list pGI); pure (.m rows)
+  | "s" => do let x ← pv; pure (.s x)
+  | "v" => do let xs ← list pv; pure (.v xs)
+  | "m" => do let rows ← list (list pv); pure (.m rows)
   | _ => throw s!"data:{t}"
 
-def pRaw : P (Raw GI) := do
+def pRaw : P (Raw α) := do
   let py ← Wire.bool
   let dt ← pDType
-  let d ← pData
+  let d ← pData pv
   pure ⟨py, dt, d⟩
 
 def pPol : P Pol := do
@@ -553,62 +604,91 @@ def pPol : P Pol := do
   | "1" => pure .p1 | "2" => pure .p2
   | _ => throw s!"pol:{t}"
 
+/-- `w`, `f` (same branch of the code), `t`, anything else = a string the code rejects -/
+def pDom : P (Option Fourier.Dom) := do
+  let t ← tok
+  match t with
+  | "w" => pure (some .w) | "f" => pure (some .w) | "t" => pure (some .t)
+  | _ => pure none
+
 /-- prefix notation; `fuel` bounds the nesting depth -/
-def pExpr : Nat → P (Expr GI)
+def pExpr : Nat → P (Expr α)
   | 0 => throw "fuel"
   | fuel + 1 => do
     let t ← tok
     match t with
     | "var" => do let i ← nat; pure (.var i)
-    | "mkE" => do let s ← pRaw; let n ← pOpt pRaw; let d ← pOpt pDType; pure (.mkE s n d)
-    | "mkO" => do let s ← pRaw; let n ← pOpt pRaw; let p ← pOpt pPol; let d ← pOpt pDType; pure (.mkO s n p d)
+    | "mkE" => do let s ← pRaw pv; let n ← pOpt (pRaw pv); let d ← pOpt pDType; pure (.mkE s n d)
+    | "mkO" => do
+      let s ← pRaw pv; let n ← pOpt (pRaw pv); let p ← pOpt pPol; let d ← pOpt pDType; pure (.mkO s n p d)
     | "add" => do let a ← pExpr fuel; let b ← pExpr fuel; pure (.add a b)
     | "sub" => do let a ← pExpr fuel; let b ← pExpr fuel; pure (.sub a b)
     | "mul" => do let a ← pExpr fuel; let b ← pExpr fuel; pure (.mul a b)
-    | "addR" => do let a ← pExpr fuel; let r ← pRaw; pure (.addR a r)
-    | "raddR" => do let a ← pExpr fuel; let r ← pRaw; pure (.raddR a r)
-    | "subR" => do let a ← pExpr fuel; let r ← pRaw; pure (.subR a r)
-    | "rsubR" => do let a ← pExpr fuel; let r ← pRaw; pure (.rsubR a r)
-    | "mulR" => do let a ← pExpr fuel; let r ← pRaw; pure (.mulR a r)
-    | "rmulR" => do let a ← pExpr fuel; let r ← pRaw; pure (.rmulR a r)
+    | "addR" => do let a ← pExpr fuel; let r ← pRaw pv; pure (.addR a r)
+    | "raddR" => do let a ← pExpr fuel; let r ← pRaw pv; pure (.raddR a r)
+    | "subR" => do let a ← pExpr fuel; let r ← pRaw pv; pure (.subR a r)
+    | "rsubR" => do let a ← pExpr fuel; let r ← pRaw pv; pure (.rsubR a r)
+    | "mulR" => do let a ← pExpr fuel; let r ← pRaw pv; pure (.mulR a r)
+    | "rmulR" => do let a ← pExpr fuel; let r ← pRaw pv; pure (.rmulR a r)
     | "idx" => do let a ← pExpr fuel; let i ← Wire.int; pure (.idx a i)
     | "slice" => do
       let a ← pExpr fuel; let s ← optInt; let e ← optInt; let st ← optInt; pure (.slice a s e st)
     | "copy" => do let a ← pExpr fuel; let n ← optInt; pure (.copy a n)
+    | "transform" => do let a ← pExpr fuel; let d ← pDom; let sh ← Wire.bool; pure (.transform a d sh)
     | _ => throw s!"expr:{t}"
 
+def pProgram : P (List (Expr α) × Expr α) := do
+  let k ← Wire.nat
+  let leaves ← (List.range k).mapM (fun _ => pExpr pv 64)
+  let e ← pExpr pv 64
+  pure (leaves, e)
+end
+
+def hasTransform {α} : Expr α → Bool
+  | .transform _ _ _ => true
+  | .var _ | .mkE _ _ _ | .mkO _ _ _ _ => false
+  | .add a b | .sub a b | .mul a b => hasTransform a || hasTransform b
+  | .addR a _ | .raddR a _ | .subR a _ | .rsubR a _ | .mulR a _ | .rmulR a _ => hasTransform a
+  | .idx a _ | .slice a _ _ _ | .copy a _ => hasTransform a
+
 def fGI (z : GI) : String := s!"{z.re} {z.im}"
+def fCF (z : CF) : String := s!"{Wire.fF z.re} {Wire.fF z.im}"
 def fDType : DType → String
   | .int => "i" | .float => "f" | .complex => "c"
-def fRows : Rows GI → String
-  | .one xs => "1 " ++ fList fGI xs
-  | .two xs ys => "2 " ++ fList fGI xs ++ " " ++ fList fGI ys
+def fRows {α} (fv : α → String) : Rows α → String
+  | .one xs => "1 " ++ fList fv xs
+  | .two xs ys => "2 " ++ fList fv xs ++ " " ++ fList fv ys
 def fCls : Cls → String
   | .E => "E" | .O => "O"
 
 /-- canonical rendering: class, n_pol, dtype tag, signal rows, noise rows -/
-def fSig (s : Sig GI) : String :=
-  s!"{fCls s.cls} {s.npol} {fDType s.dt} {fRows s.sig} " ++
-    (match s.noise with | none => "nonoise" | some n => "noise " ++ fRows n)
+def fSig {α} (fv : α → String) (s : Sig α) : String :=
+  s!"{fCls s.cls} {s.npol} {fDType s.dt} {fRows fv s.sig} " ++
+    (match s.noise with | none => "nonoise" | some n => "noise " ++ fRows fv n)
 
 end IO
 
 -- @handler OptiVerif.Container.handle
 /-- line protocol:
-    `container.eval <k> <leaf expr>*k <expr>`   → `ok <sig>` | `err <enum>`
+    `container.eval <k> <leaf expr>*k <expr>`   → `ok <sig>` | `err <enum>`   exact, Gaussian integers; no transform nodes
+    `container.evalf <k> <leaf expr>*k <expr>`  → the same at `Cx Float` (values as IEEE bit patterns); any program
     `container.slice <n> <start|none> <stop|none> <step|none>` → `ok <k> i1 … ik` | `err ValueError` -/
 def handle : List String → Option String
   | "container.eval" :: args =>
-    some <| match Wire.run (do
-        let k ← Wire.nat
-        let leaves ← (List.range k).mapM (fun _ => IO.pExpr 64)
-        let e ← IO.pExpr 64
-        pure (leaves, e)) args with
+    some <| match Wire.run (IO.pProgram IO.pGI) args with
+    | .error e => "bad-op " ++ e
+    | .ok (leaves, e) =>
+      if leaves.any IO.hasTransform || IO.hasTransform e then "bad-op transform-needs-evalf" else
+      match run leaves e with
+      | .error err => Wire.err err
+      | .ok s => Wire.ok (IO.fSig IO.fGI s)
+  | "container.evalf" :: args =>
+    some <| match Wire.run (IO.pProgram IO.pCF) args with
     | .error e => "bad-op " ++ e
     | .ok (leaves, e) =>
       match run leaves e with
       | .error err => Wire.err err
-      | .ok s => Wire.ok (IO.fSig s)
+      | .ok s => Wire.ok (IO.fSig IO.fCF s)
   | "container.slice" :: args =>
     some <| match Wire.run (do
         let n ← Wire.nat; let s ← Wire.optInt; let e ← Wire.optInt; let st ← Wire.optInt
